@@ -48,6 +48,7 @@ type chainCase struct {
 	PanicVal  string `json:"panicVal"`  // "" (a string) | abort (http.ErrAbortHandler) | err | int : the value panics are raised with
 	Copy      bool   `json:"copy"`      // targets stream with io.Copy into the writer below the Response (io.ReaderFrom fast paths)
 	RouteFlip bool   `json:"routeFlip"` // a copy of the OTHER route (from WebService.Routes()) gets the opposite encoding setting at run time
+	Nested    bool   `json:"nested"`    // entry S: the container is mounted with HandleWithFilter("/") in an outer container with the same encoding switch and a filter
 	ReadPanic bool   `json:"readPanic"` // the request carries a gzip entity; the target reads it and the entity's own UnmarshalJSON panics
 }
 
@@ -796,9 +797,16 @@ func runChainCase(tw *traceWriter, cs chainCase, rid *int) {
 		} else {
 			func() {
 				defer func() { pv = recover() }()
-				switch cs.Entry {
-				case "D":
+				switch {
+				case cs.Entry == "D":
 					c.Dispatch(out, hr)
+				case cs.Entry == "S" && cs.Nested:
+					// a container is an http.Handler: mounted below another container it must behave as on its own
+					outer := restful.NewContainer()
+					outer.EnableContentEncoding(cs.CEnc)
+					outer.Filter(func(rq *restful.Request, rs *restful.Response, ch *restful.FilterChain) { ch.ProcessFilter(rq, rs) })
+					outer.HandleWithFilter("/", c)
+					outer.ServeHTTP(out, hr)
 				default:
 					c.ServeHTTP(out, hr)
 				}
@@ -993,6 +1001,7 @@ func randomChainCase(r *rand.Rand, mode string) chainCase {
 		cs.PanicVal = pick(r, []string{"", "", "", "abort", "err", "int"})
 	}
 	cs.Origin = pick(r, []string{"", "http://allowed.example", "http://evil.example", "null"})
+	cs.Nested = cs.Entry == "S" && r.Intn(3) == 0
 	faults := 0
 	for i := 0; i < n; i++ {
 		s := pick(r, scripts)
